@@ -249,7 +249,13 @@ struct SStart
 };
 static std::vector<SStart> sstarts()
 {
-  return { { "null", ~0ull }, { "first", 0 }, { "first", 1 }, { "first", 2 }, { "interior", 0x4000 }, { "interior", 0x8001 }, { "last", kSize - 3 }, { "last", kSize - 2 }, { "last", kSize - 1 } };
+  std::vector<SStart> v = { { "null", ~0ull }, { "first", 0 }, { "first", 1 }, { "first", 2 }, { "interior", 0x4000 }, { "interior", 0x8001 }, { "last", kSize - 3 }, { "last", kSize - 2 }, { "last", kSize - 1 } };
+  if (g_thorough) {
+    for (uint64_t o = 3; o <= 9; o++) v.push_back({ "first", o });
+    for (uint64_t o : { (uint64_t)0x0fff, (uint64_t)0x1000, (uint64_t)0x3fff, (uint64_t)0x7fff, (uint64_t)0x8000, (uint64_t)0xc003, (uint64_t)0xfff0 }) v.push_back({ "interior", o });
+    for (uint64_t k = 4; k <= 17; k++) v.push_back({ "last", kSize - k });
+  }
+  return v;
 }
 struct AStart
 {
@@ -268,6 +274,18 @@ static std::vector<AStart> astarts()
            { "same-sandbox", g_base + 0x2000 },
            { "before-sandbox", g_base - 8 },
            { "before-arena-guard", (uintptr_t)g_arena - 4 } };
+}
+static std::vector<AStart> astarts_all()
+{
+  auto v = astarts();
+  if (g_thorough) {
+    for (uintptr_t k : { 2, 3, 4, 7, 8, 9, 15, 17 }) v.push_back({ "arena-end-k", (uintptr_t)g_arena + kSize - k });
+    v.push_back({ "other-sandbox-last", g_obase + kSize - 1 });
+    v.push_back({ "same-sandbox-last", g_base + kSize - 4 });
+    v.push_back({ "after-sandbox", g_base + kSize });
+    v.push_back({ "before-sandbox-1", g_base - 1 });
+  }
+  return v;
 }
 // byte extents for a range starting `rem` bytes before the end of its 64 KiB container
 static std::vector<u128> extents(uint64_t rem)
@@ -420,7 +438,7 @@ static void op_memcpy_memcmp()
     }
   // raw application pointer -> tainted
   for (auto& d : sstarts())
-    for (auto& a : astarts()) {
+    for (auto& a : astarts_all()) {
       uint64_t remd = d.off == ~0ull ? kSize : kSize - d.off;
       std::set<u128> ns;
       for (u128 n : extents(remd)) ns.insert(n);
@@ -675,7 +693,7 @@ static void op_grant_deny()
 {
   const uint64_t es = sizeof(T);
   // grant: application-side source
-  for (auto& a : astarts()) {
+  for (auto& a : astarts_all()) {
     uint64_t aoff = a.addr & (kSize - 1);
     for (u128 c : counts(kSize - aoff, es)) {
       std::string kase = std::string("grant|") + elname<T>::n + "|" + a.cls + "|" + hex(c);
